@@ -39,6 +39,7 @@ def parseEv? (s : String) : Option Ev :=
   | ["closeCallInReconn"] => some .closeCallInReconn
   | ["connCallInRecv"] => some .connCallInRecv
   | ["abandon", c] => c.toNat?.map .abandon
+  | ["connGiveUp", c] => c.toNat?.map .connGiveUp
   | ["connCancel"] => some .connCancel
   | ["reconnStart"] => some .reconnStart
   | ["reconnEnd"] => some .reconnEnd
